@@ -8,6 +8,7 @@ import (
 	"bufio"
 	"fmt"
 	"io/ioutil"
+	"net"
 	"net/http"
 	"os"
 	"path"
@@ -162,7 +163,7 @@ func runChild(cfg childCfg) {
 		// with peers the transport has to run before the node starts; the namespace manager starts the node
 		// (and swallows its error): a node that did not become ready failed to start
 		kv.Start()
-		dl := time.Now().Add(30 * time.Second)
+		dl := time.Now().Add(90 * time.Second)
 		for !n.IsReady() {
 			if time.Now().After(dl) {
 				fmt.Printf("FAIL startraft not ready\n")
@@ -180,7 +181,7 @@ func runChild(cfg childCfg) {
 	if cluster {
 		// reads are served by every replica (stale reads allowed): what a follower serves is what C06 looks at
 		okStale := false
-		for try := 0; try < 300 && !okStale; try++ {
+		for try := 0; try < 3000 && !okStale; try++ {
 			resp, err := http.Post(fmt.Sprintf("http://127.0.0.1:%d/staleread?allow=true", cfg.Port+1), "application/json", nil)
 			if err == nil {
 				okStale = resp.StatusCode == 200
@@ -195,10 +196,25 @@ func runChild(cfg childCfg) {
 			os.Exit(5)
 		}
 	}
-	deadline := time.Now().Add(25 * time.Second)
+	// generous budgets: a slow machine (cold page cache, loaded cores) is not a node that cannot recover
+	deadline := time.Now().Add(90 * time.Second)
 	for !cluster && !n.Node.IsLead() {
 		if time.Now().After(deadline) {
 			fmt.Printf("FAIL noleader\n")
+			os.Exit(5)
+		}
+		time.Sleep(10 * time.Millisecond)
+	}
+	// server.Start launches the API listeners asynchronously: READY only when the redis port accepts connections
+	apiDl := time.Now().Add(60 * time.Second)
+	for {
+		cn, err := net.DialTimeout("tcp", fmt.Sprintf("127.0.0.1:%d", cfg.Port), 500*time.Millisecond)
+		if err == nil {
+			cn.Close()
+			break
+		}
+		if time.Now().After(apiDl) {
+			fmt.Printf("FAIL noapi %v\n", err)
 			os.Exit(5)
 		}
 		time.Sleep(10 * time.Millisecond)
